@@ -135,14 +135,63 @@ type Block struct {
 
 type History struct {
 	Blocks []Block `json:"blocks"`
+	// Fin: what every block of the history does between its mutations and the trie-database commit
+	// (see finVariants); "" = nothing, state.Commit(true) once.
+	Fin string `json:"fin,omitempty"`
 }
+
+// finVariants: the finalisation calls the node / the exported API allow before a state commit.
+//
+//	ir1 / ir0     IntermediateRoot(true/false), then Commit(true)  (ir1 = what the block executor + AddBlockOnChain do)
+//	fin1 / fin0   Finalise(true/false), then Commit(true)
+//	ir-each       IntermediateRoot(true) after every mutation (as after every transaction: more mutations
+//	              follow an IntermediateRoot and another one follows them), then Commit(true)
+//	twice         Commit(true) called twice, the second root goes to the trie database
+//	commit0       Commit(false)
+var finVariants = []string{"", "ir1", "ir0", "fin1", "fin0", "ir-each", "twice", "commit0"}
 
 func (h History) name() string {
 	var s []string
 	for _, b := range h.Blocks {
 		s = append(s, fmt.Sprintf("%s<%d", b.T, b.Parent))
 	}
-	return strings.Join(s, ",")
+	n := strings.Join(s, ",")
+	if h.Fin != "" {
+		n += "/" + h.Fin
+	}
+	return n
+}
+
+// execBlock applies the operations of one block and the finalisation calls of the variant.
+func execBlock(st *account.AccountDB, ops []Op, fin string) {
+	var snapIDs []int
+	for _, o := range ops {
+		applyReal(st, o, &snapIDs)
+		// the journal is cleared by Finalise: like the executors, only finalise outside snapshots
+		if fin == "ir-each" && len(snapIDs) == 0 && o.K != "revert" && o.K != "read" {
+			st.IntermediateRoot(true)
+		}
+	}
+	switch fin {
+	case "ir1", "ir-each":
+		st.IntermediateRoot(true)
+	case "ir0":
+		st.IntermediateRoot(false)
+	case "fin1":
+		st.Finalise(true)
+	case "fin0":
+		st.Finalise(false)
+	}
+}
+
+// commitState is the state commit of the variant.
+func commitState(st *account.AccountDB, fin string) (common.Hash, error) {
+	del := fin != "commit0"
+	r, err := st.Commit(del)
+	if err == nil && fin == "twice" {
+		r, err = st.Commit(del)
+	}
+	return r, err
 }
 
 type tmpl struct {
@@ -701,15 +750,12 @@ func runHistoryEx(h History, scale, failAt, mapVar int, reexec bool) (tr *trace)
 			// disagreement means the model does not describe this history; the history is cut here.
 			// The committing state object below is never read by the harness, so it holds exactly the
 			// objects and cached slots the block's own operations left in it.
-			var snapIDs []int
 			sh, err := account.NewAccountDB(parentRoot, live)
 			if err != nil {
 				cerr = fmt.Errorf("open parent: %v", err)
 				return
 			}
-			for _, o := range blk.Ops {
-				applyReal(sh, o, &snapIDs)
-			}
+			execBlock(sh, blk.Ops, h.Fin)
 			skip := snap.dead
 			if f, d := compareAPIEx(sh, snap, &skip); f != "" {
 				guard = fmt.Sprintf("block %d %s: %s", bi, f, d)
@@ -720,12 +766,9 @@ func runHistoryEx(h History, scale, failAt, mapVar int, reexec bool) (tr *trace)
 				cerr = fmt.Errorf("open parent: %v", err)
 				return
 			}
-			snapIDs = nil
-			for _, o := range blk.Ops {
-				applyReal(st, o, &snapIDs)
-			}
+			execBlock(st, blk.Ops, h.Fin)
 			commit := func() error {
-				r, err := st.Commit(true)
+				r, err := commitState(st, h.Fin)
 				if err != nil {
 					return err
 				}
@@ -740,10 +783,7 @@ func runHistoryEx(h History, scale, failAt, mapVar int, reexec bool) (tr *trace)
 						cerr = fmt.Errorf("open parent again: %v", err)
 						return
 					}
-					snapIDs = nil
-					for _, o := range blk.Ops {
-						applyReal(st, o, &snapIDs)
-					}
+					execBlock(st, blk.Ops, h.Fin)
 				}
 				cerr = commit()
 			}
@@ -1201,9 +1241,32 @@ func sameSigs(a, b []viol) bool {
 	return len(x) == 0
 }
 
+// finsFor: which finalisation variants a history is run with.  Histories of up to 2 blocks: all of
+// them (oversized blocks: a subset).  3 blocks: the production order ir1; thorough runs the plain
+// chain also with ir-each and the fork from the empty state with the bare Commit.
+func finsFor(h History, nbig int, thorough bool) []string {
+	switch {
+	case nbig > 0 && len(h.Blocks) <= 2 && thorough:
+		return []string{"", "ir1", "ir-each", "twice"}
+	case nbig > 0 && len(h.Blocks) <= 2:
+		return []string{"", "ir1"}
+	case len(h.Blocks) <= 2:
+		return finVariants
+	case !thorough:
+		return []string{"ir1"}
+	}
+	switch h.Blocks[2].Parent {
+	case 1:
+		return []string{"ir1", "ir-each"}
+	case 0:
+		return []string{"ir1"}
+	}
+	return []string{""}
+}
+
 // dropBlock returns h without block i (children of i are re-parented to i's parent).
 func dropBlock(h History, i int) History {
-	var n History
+	n := History{Fin: h.Fin}
 	for j, b := range h.Blocks {
 		if j == i {
 			continue
@@ -1260,7 +1323,7 @@ func run(c *fw.Ctx) {
 	capped := false
 	var unit int64
 	never := func() bool { return false }
-	histories(ts, 3, c.Thorough(), maxBig, func(_ int64, h History, nbig int) bool {
+	visitOne := func(h History, nbig int) bool {
 		scales := []int{scaleReal, scaleFine}
 		if nbig > 0 {
 			scales = []int{scaleReal, scaleMid}
@@ -1327,6 +1390,16 @@ func run(c *fw.Ctx) {
 						}
 					}
 				}
+			}
+		}
+		return true
+	}
+	histories(ts, 3, c.Thorough(), maxBig, func(_ int64, h0 History, nbig int) bool {
+		for _, fin := range finsFor(h0, nbig, c.Thorough()) {
+			h := h0
+			h.Fin = fin
+			if !visitOne(h, nbig) {
+				return false
 			}
 		}
 		return true
@@ -1412,8 +1485,8 @@ func replay(c *fw.Ctx, raw json.RawMessage) {
 func main() {
 	fw.Main(fw.Check{
 		ID: "C03", Level: "fault_enumeration",
-		Rule: "evaluation = (history, write-granularity, map-order variant, prefix p of the physical write log) with all acknowledged and all on-disk-top-node roots cold-opened and walked, " +
-			"plus (history, failing write p) re-commit cases; histories = all sequences of 1..3 block templates (quick 14, thorough 24 templates, among them 4 / 8 with in-block Snapshot/RevertToSnapshot activity and 2 / 4 that create storage-only accounts (nonce 0, no code) or merely load them without dirtying; at most 1 / 2 oversized blocks) x fork shapes (2 blocks: second on the first or on the empty state; 3 blocks: last block on the second, on the first = sibling fork committed after its competitor, thorough also on the empty state); " +
+		Rule: "evaluation = (history incl. finalisation variant, write-granularity, map-order variant, prefix p of the physical write log) with all acknowledged and all on-disk-top-node roots cold-opened and walked, " +
+			"plus (history, failing write p) re-commit cases; histories = all sequences of 1..3 block templates (quick 14, thorough 24 templates, among them 4 / 8 with in-block Snapshot/RevertToSnapshot activity and 2 / 4 that create storage-only accounts (nonce 0, no code) or merely load them without dirtying; at most 1 / 2 oversized blocks) x fork shapes x finalisation variant applied by every block between its mutations and the commit (nothing | IntermediateRoot(true|false) | Finalise(true|false) | IntermediateRoot after every mutation | Commit twice | Commit(false); all 8 for histories of <= 2 blocks, 3-block histories run in the production order IntermediateRoot(true)+Commit(true), thorough also IntermediateRoot-after-every-mutation) (2 blocks: second on the first or on the empty state; 3 blocks: last block on the second, on the first = sibling fork committed after its competitor, thorough also on the empty state); " +
 			"non-trivial = prefix strictly inside one commit (not at a block boundary, not 0) or a write fault that was actually injected",
 		Assumptions: []string{
 			"one Batch.Write / Put / Delete is atomic and ordered (LevelDB journal semantics); torn writes inside one batch and fsync loss on power failure are outside the bound",
